@@ -206,6 +206,18 @@ def membership(root, km: KeyMap, nodes: List[Dict[str, Any]], through_datasets: 
         cand |= set(itertools.product(ABSTRACT_KEYS, repeat=d))
     cand |= {p_ + (k_,) for p_ in present if len(p_) == 2 for k_ in ABSTRACT_KEYS}
     cand.discard(())
+    # len() of every group and of every attribute set agrees with the listing
+    for n in nodes:
+        try:
+            o = root[km.path(n["p"])] if n["p"] else root["/"]
+            if len(o.attrs) != len(n["a"]) or len(list(o.attrs.keys())) != len(n["a"]):
+                bad.append(f"len(attrs) of {km.path(n['p'])!r} is {len(o.attrs)}, listed {len(n['a'])}")
+            if n["k"] == "g":
+                kids = sum(1 for m in nodes if len(m["p"]) == len(n["p"]) + 1 and m["p"][: len(n["p"])] == n["p"])
+                if len(o) != kids:
+                    bad.append(f"len of group {km.path(n['p'])!r} is {len(o)}, listed {kids}")
+        except Exception as ex:
+            bad.append(f"len of {km.path(n['p'])!r} raised {type(ex).__name__}")
     # IH5 lookups are slow: a deterministic sample of the candidates per observation (many observations per run)
     order = sorted(cand)
     random.Random(len(nodes) * 7919 + sum(len(x) for x in present)).shuffle(order)
